@@ -37,6 +37,41 @@ def np_reduce(nested, axis, keepdims, dim):
     return a.sum(axis=axis if axis >= 0 else axis - 1, keepdims=keepdims)
 
 
+def one_hot_patterns(system):
+    """stored coordinates of: the zero vector, a vector with only a transverse part, (z storage) only a z part, (4D) only a time part"""
+    def mk(rho, z, t):
+        e = {}
+        if system[0] == "xy":
+            e["x"], e["y"] = float(rho), 0.0
+        else:
+            e["rho"], e["phi"] = float(rho), 0.3 if rho else 0.0
+        if len(system) > 1:
+            if system[1] == "z":
+                e["z"] = float(z)
+            elif system[1] == "theta":
+                e["theta"] = 1.0 if not rho else math.pi / 2       # rho = 0: z = 0 whatever theta is
+            else:
+                e["eta"] = 0.0
+        if len(system) > 2:
+            if system[2] == "t":
+                e["t"] = float(t)
+            else:
+                # tau with t^2 = copysign(tau^2, tau) + |p|^2: t = 0 needs tau = -|p|
+                mag = math.hypot(rho, z if system[1] == "z" else 0.0)
+                e["tau"] = float(t) if t else -mag
+        return e
+    pats = [mk(0, 0, 0), mk(2, 0, 0)]
+    if len(system) > 1 and system[1] == "z":
+        pats.append(mk(0, 5, 0))
+    if len(system) > 2 and system[2] == "t":
+        pats.append(mk(0, 0, 3))
+    if len(system) > 1 and system[1] == "theta":
+        pats = [p for p in pats if not (p.get("theta") == math.pi / 2)]    # theta = pi/2 gives z ~ 6e-17, not an exact zero
+    while len(pats) < 3:
+        pats.append(mk(0, 0, 0))
+    return pats
+
+
 def shard(args):
     import vector
     system, mom, seed = args
@@ -122,6 +157,28 @@ def shard(args):
                 F.check("C17", f"{tag}", got == exp, dict(got=got, expected=exp))
             except Exception as e:
                 F.check("C17", f"defined/{tag}", False, f"{type(e).__name__}: {str(e)[:150]}")
+        # count_nonzero on vectors with a single non-zero Cartesian component (and the zero vector), where the system can hold them
+        pats = one_hot_patterns(system)
+        objs = [AR.obj_of(system, mom, e) for e in pats]
+        with np.errstate(all="ignore"):
+            nz = [any(float(getattr(o, c)) != 0.0 for c in names) for o in objs]
+        rows = [pats[:2], pats[2:], [pats[0]], []]
+        exp = [sum(nz[:2]), sum(nz[2:]), int(nz[0]), 0]
+        try:
+            ja = vector.Array([[{key(n): e[n] for n in AR.names_of(system)} for e in r] for r in rows])
+            with np.errstate(all="ignore"):
+                got = ak.to_list(ak.count_nonzero(ja, axis=1))
+            F.check("C17", f"ak.count_nonzero(axis=1)/single-component-vectors{tag0}|ak-jagged]", got == exp, dict(got=got, expected=exp, rows=str(rows)[:200]))
+        except Exception as e:
+            F.check("C17", f"ak.count_nonzero(axis=1)/single-component-vectors{tag0}|ak-jagged]", False, f"{type(e).__name__}: {str(e)[:150]}")
+        try:
+            na = vector.array({key(n): np.array([e[n] for e in pats]) for n in AR.names_of(system)})
+            with np.errstate(all="ignore"):
+                got = int(np.count_nonzero(na))
+                got0 = np.count_nonzero(na.reshape(1, -1), axis=1).tolist()
+            F.check("C17", f"numpy.count_nonzero/single-component-vectors{tag0}|np]", got == sum(nz) and got0 == [sum(nz)], dict(got=(got, got0), expected=sum(nz), rows=str(pats)[:200]))
+        except Exception as e:
+            F.check("C17", f"numpy.count_nonzero/single-component-vectors{tag0}|np]", False, f"{type(e).__name__}: {str(e)[:150]}")
         flat = vector.Array([{key(n): e[n] for n in AR.names_of(system)} for e in (struct[0] + struct[4])])
         try:
             with np.errstate(all="ignore"):
